@@ -66,9 +66,14 @@ def generate(seed, tier):
         o = list(range(len(tb)))
         rng.shuffle(o)
         orders.append(o)
-    return {"tb": tb, "mode": gen_mode(rng), "orders": orders,
-            "shuffle": rng.randrange(1 << 30),
-            "first_mode": gen_mode(rng) if rng.random() < 0.35 else None}
+    sc = {"tb": tb, "mode": gen_mode(rng), "orders": orders,
+          "shuffle": rng.randrange(1 << 30),
+          "first_mode": gen_mode(rng) if rng.random() < 0.35 else None}
+    if rng.random() < 0.15:
+        # the trees went through collapse + uncollapse of their unary chains in memory before
+        # extraction: the same trees again, but not the same node objects
+        sc["roundtrip"] = True
+    return sc
 
 
 def modesig(mode):
@@ -82,6 +87,9 @@ def ops_for(sc, order):
     ops = [["gnew", "g"]]
     for j in order:
         ops.append(["build", "t", sc["tb"][j], sc["shuffle"] + j])
+        if sc.get("roundtrip") and len(sc["tb"][j]["tokens"]) > 1:
+            ops.append(["trans", "t", "collapse_unary_chains", {}])
+            ops.append(["trans", "t", "uncollapse_unary_chains", {}])
         ops.append(["extract", "t", "g"])
     ops.append(["gdump", "g"])
     if sc.get("first_mode"):
